@@ -23,7 +23,7 @@ REQUIRED = ["contract:CVR.merge_cvrs", "merge_checked", "merge_conflict_expected
             "merged_with_pool_false", "merged_phantom_mixed", "raire_checked", "raire_file_checked",
             "later_record_overrides_contest", "lists_whose_records_share_votes_objects",
             "raire_lines_where_a_candidate_shares_its_name_with_the_contest_or_ballot",
-            "raire_file_fields_holding_characters_some_routines_split_lines_on"]
+            "raire_file_fields_holding_characters_some_routines_split_lines_on", "raire_lines_listing_a_candidate_twice"]
 ASSUMPTIONS = ["tally-pool conflict = two different non-None labels for one id (None is 'unknown')"]
 N_CASES = {"quick": 80000, "thorough": 640000}
 
@@ -202,6 +202,13 @@ def gen_raire(rng):
         for c in rng.sample(cons, rng.randint(1, min(ncon, 3))):
             k = rng.randint(0, len(cands[c]))
             lines.append([c, b] + rng.sample(cands[c], k))
+    if lines and rng.random() < 0.15:
+        # a line that lists a candidate twice (a data-entry slip the format does not forbid), with other candidates after
+        # the repeat: those still are the k-th listed
+        l0 = rng.choice(lines)
+        if len(l0) >= 4:
+            j = rng.randint(3, len(l0) - 1)
+            l0.insert(j, rng.choice(l0[2:j]))
     if lines and rng.random() < 0.3:   # the same (ballot, contest) twice: the later line wins
         l0 = rng.choice(lines)
         lines.append([l0[0], l0[1]] + rng.sample(cands[l0[0]], rng.randint(0, len(cands[l0[0]]))))
@@ -312,13 +319,35 @@ def run_case(case, rec):
                 return
             cvrs = res[0]
         rec.count("raire_checked")
+        if any(len(set(r[2:])) < len(r[2:]) for r in rows[1 + int(rows[0][0]):]):
+            rec.count("raire_lines_listing_a_candidate_twice")
         if any(r[0] in r[2:] or r[1] in r[2:] for r in rows[1 + int(rows[0][0]):]):
             rec.count("raire_lines_where_a_candidate_shares_its_name_with_the_contest_or_ballot")
         got = [(c.id, c.votes) for c in cvrs]
         if [g[0] for g in got] != [w[0] for w in want]:
             rec.violation("c18.raire", "ballot_ids_wrong", {"got": [g[0] for g in got], "want": [w[0] for w in want]})
             return
+        line_for = {(r[1], r[0]): r[2:] for r in rows[1 + int(rows[0][0]):]}     # (the later line for a ballot and contest wins)
+
+        def same_up_to_repeats(bid, g_, w_):
+            # a candidate the line lists more than once has no single "k-th listed" position: any of its positions is
+            # accepted for it; every other candidate must have exactly its own
+            if set(g_) != set(w_):
+                return False
+            for con_ in w_:
+                prefs = [str(z) for z in line_for.get((bid, con_), [])]
+                if not isinstance(g_[con_], dict) or set(g_[con_]) != set(w_[con_]):
+                    return False
+                for k_ in w_[con_]:
+                    ok_ = [q + 1 for q, z in enumerate(prefs) if z == k_] if prefs.count(k_) > 1 else [w_[con_][k_]]
+                    if g_[con_][k_] not in ok_:
+                        return False
+            return True
+
         for (gi, gv), (wi, wv) in zip(got, want):
+            if gv != wv and same_up_to_repeats(wi, gv, wv):
+                rec.count("ranks_differ_only_for_candidates_listed_twice")
+                continue
             if gv != wv:
                 mech = "contest_lost" if set(gv) != set(wv) else "rank_not_position_in_line"
                 rec.violation("c18.raire", mech, {"ballot": gi, "got": gv, "want": wv})
